@@ -306,6 +306,15 @@ func (e *Exec) intrinsic(name string, fn *ssa.Function, args []Value) (Value, bo
 		}
 		return e.modelMethod(mo, strings.TrimPrefix(name, "(cosmossdk.io/store/prefix.Store)."), args[1:]), true
 	}
+	if strings.HasPrefix(name, "(*sync.Map).") {
+		return e.syncMapMethod(strings.TrimPrefix(name, "(*sync.Map)."), args), true
+	}
+	switch name {
+	case "(*sync.Mutex).Lock", "(*sync.Mutex).Unlock", "(*sync.RWMutex).Lock", "(*sync.RWMutex).Unlock", "(*sync.RWMutex).RLock", "(*sync.RWMutex).RUnlock":
+		return nil, true
+	case "(*sync.Mutex).TryLock", "(*sync.RWMutex).TryLock":
+		return tb.tt, true
+	}
 	if strings.HasPrefix(name, "(*math/big.Int).") {
 		return e.bigMethod(strings.TrimPrefix(name, "(*math/big.Int)."), args), true
 	}
@@ -870,4 +879,69 @@ func (e *Exec) newCoins(arg Value) Value {
 		out.e = append(out.e, &Cell{v: copyVal(coin)})
 	}
 	return out
+}
+
+// sync.Map as an association list (single-threaded execution: no interleavings inside a handler).
+func (e *Exec) syncMapMethod(m string, args []Value) Value {
+	tb := e.tb
+	p, ok := args[0].(*PtrV)
+	if !ok || p.c == nil {
+		e.goPanicNow("nil *sync.Map")
+	}
+	if e.syncMaps == nil {
+		e.syncMaps = map[*Cell]*MapV{}
+	}
+	mv := e.syncMaps[p.c]
+	if mv == nil {
+		mv = &MapV{}
+		e.syncMaps[p.c] = mv
+	}
+	find := func(k Value) int {
+		for i := len(mv.entries) - 1; i >= 0; i-- {
+			if e.branch(e.keyEq(mv.entries[i].k, k)) {
+				return i
+			}
+		}
+		return -1
+	}
+	switch m {
+	case "Load":
+		if i := find(args[1]); i >= 0 {
+			return TupleV{copyVal(mv.entries[i].v.v), tb.tt}
+		}
+		return TupleV{&IfaceV{}, tb.ff}
+	case "Store":
+		if p.c.global {
+			e.noteGlobalWrite("sync.Map.Store")
+		}
+		if i := find(args[1]); i >= 0 {
+			mv.entries[i].v.v = copyVal(args[2])
+		} else {
+			mv.entries = append(mv.entries, mapEntry{k: args[1], v: &Cell{v: copyVal(args[2])}})
+		}
+		return nil
+	case "LoadOrStore":
+		if i := find(args[1]); i >= 0 {
+			return TupleV{copyVal(mv.entries[i].v.v), tb.tt}
+		}
+		if p.c.global {
+			e.noteGlobalWrite("sync.Map.LoadOrStore")
+		}
+		mv.entries = append(mv.entries, mapEntry{k: args[1], v: &Cell{v: copyVal(args[2])}})
+		return TupleV{args[2], tb.ff}
+	case "Delete":
+		if i := find(args[1]); i >= 0 {
+			mv.entries = append(mv.entries[:i:i], mv.entries[i+1:]...)
+		}
+		return nil
+	case "LoadAndDelete":
+		if i := find(args[1]); i >= 0 {
+			v := copyVal(mv.entries[i].v.v)
+			mv.entries = append(mv.entries[:i:i], mv.entries[i+1:]...)
+			return TupleV{v, tb.tt}
+		}
+		return TupleV{&IfaceV{}, tb.ff}
+	}
+	e.fail("sync.Map method %s not modelled", m)
+	return nil
 }
